@@ -324,11 +324,11 @@ def model_runs(ctx, tier):
     if tier == "thorough":
         jobs[0] = ("RangeDec32_mc", "RangeDec32_mc_thorough.cfg", "TellFracFormula + tell on every magnitude, 32768 mantissas", dict(workers=4, deadlock=True))
         jobs += [("RangeCoder_mc", "RangeCoder_mc_prefix.cfg", "RCLink, patch_initial_bits before 85f44ce1, depth 3", dict(workers=4, deadlock=True)),
-                 ("RangeCoder_mc", "RangeCoder_mc_thorough.cfg", "RCLink full alphabet depth 3", dict(workers=8, deadlock=True, heap="10g")),
+                 ("RangeCoder_mc", "RangeCoder_mc_thorough.cfg", "RCLink wide alphabet depth 3", dict(workers=8, deadlock=True, heap="10g")),
                  ("RangeCoder_mc", "RangeCoder_mc_thorough_b4.cfg", "RCLink all kinds depth 4", dict(workers=6, deadlock=True, heap="8g")),
-                 ("RangeCoder_mc", "RangeCoder_mc_thorough_deep.cfg", "RCLink carry alphabet depth 6", dict(workers=6, deadlock=True, heap="8g")),
+                 ("RangeCoder_mc", "RangeCoder_mc_thorough_deep.cfg", "RCLink carry alphabet depth 5", dict(workers=6, deadlock=True, heap="8g")),
                  ("RangeCoder_mc", "RangeCoder_mc_sim.cfg", "RCLink random op lists of length 24 (simulation)",
-                  dict(workers=4, deadlock=True, simulate=1500, depth=25, extra=["-seed", str(ctx.seed)]))]
+                  dict(workers=4, deadlock=True, simulate=600, depth=25, extra=["-seed", str(ctx.seed)]))]
 
     def one(j):
         mod, cfg, what, kw = j
@@ -406,7 +406,7 @@ def run(ctx):
     ctx.notes["lifted_behaviours"] = nl
     s = ctx.seed
     if tier == "quick":
-        jobs = [("rand", [s + i, 160, 4000]) for i in range(10)]
+        jobs = [("rand", [s + i, 110, 4000]) for i in range(10)]
         tffills = 1
     else:
         jobs = [("rand", [s + i, 400, 4000]) for i in range(32)]
